@@ -299,8 +299,9 @@ theorem carrier_factor_spec (c : Carrier) (t : CqlTy) (x : RustVal) (ws : Bool) 
 /-- **Typed round trip.**  For every typed carrier `c` that has a `DeserializeValue` impl (scalars, `Option`,
 `MaybeEmpty`, `Vec`, set and map types, tuples, arbitrarily nested), every CQL type `t` it type-checks against
 for deserialization (`tcheck`) and is compatible with for serialization (`compat`), and every Rust value `x`
-of that type in the round-trip domain `rtOk` (UTF-8 / ASCII strings, `time` within a day, non-empty varint; no
-`Some(None)`, no null / *empty* vector element — C01-F2 / C01-F9): the carrier's own serializer appends exactly
+of that type in the round-trip domain `rtOk` (UTF-8 / ASCII strings, `time` within a day, non-empty varint; set
+and map carriers on canonical content — strictly ascending keys, which is what a `BTreeSet` / `BTreeMap`
+value is; no `Some(None)`, no null / *empty* vector element — C01-F2 / C01-F9): the carrier's own serializer appends exactly
 the cell the protocol defines for its embedding, and the carrier's own typed deserializer, reading that cell
 (followed by anything), returns `x` itself — `Vec<Option<T>>` with nulls in lists and maps included. -/
 theorem typed_roundtrip (u : Bytes → Bool) (c : Carrier) (t : CqlTy) (x : RustVal) (cell rest buf : Bytes)
@@ -324,10 +325,23 @@ set_option maxRecDepth 100000 in
 example :
     let c : Carrier := .tuple [.opt .i32, .vec (.map .string (.opt .f64))]
     let t : CqlTy := .tuple [.native .int, .list (.map (.native .text) (.native .double))]
-    let x : RustVal := .tuple [.none, .seq [.pairs [(.string [0x61], .some (.f64 0x3ff0000000000000)), (.string [], .none)]]]
+    let x : RustVal := .tuple [.none, .seq [.pairs [(.string [], .none), (.string [0x61], .some (.f64 0x3ff0000000000000))]]]
     wtVal c x = true ∧ compat c t = true ∧ tcheck c t = true ∧ rtOk (fun _ => true) c t x = true ∧
     (∃ cell, encSpec t (embed c x) true = .ok cell ∧ typedRead (fun _ => true) c t cell = some (.ok x)) := by
   refine ⟨by rfl, by rfl, by rfl, by rfl, _, rfl, by rfl⟩
+
+set_option maxRecDepth 100000 in
+/-- The set / map carriers `collect()`: a non-canonical body (unsorted, duplicates) reads as the sorted,
+duplicate-free set, and a duplicated map key keeps its *last* value. -/
+example :
+    deserCarrier (fun _ => true) (.set .i32) (.set (.native .int))
+      (some [0, 0, 0, 3, 0, 0, 0, 4, 0, 0, 0, 5, 0, 0, 0, 4, 0, 0, 0, 1, 0, 0, 0, 4, 0, 0, 0, 5]) =
+      .ok (.seq [.i32 1, .i32 5]) ∧
+    deserCarrier (fun _ => true) (.map .i32 .i32) (.map (.native .int) (.native .int))
+      (some [0, 0, 0, 2, 0, 0, 0, 4, 0, 0, 0, 1, 0, 0, 0, 4, 0, 0, 0, 7, 0, 0, 0, 4, 0, 0, 0, 1, 0, 0, 0, 4, 0, 0, 0, 9]) =
+      .ok (.pairs [(.i32 1, .i32 9)]) ∧
+    rtOk (fun _ => true) (.set .i32) (.set (.native .int)) (.seq [.i32 5, .i32 1, .i32 5]) = false := by
+  refine ⟨by rfl, by rfl, by rfl⟩
 
 /-- Typed decoders have no "zero bytes ⇒ empty" rule: `i32` on the zero-length cell is `ByteLengthMismatch`,
 `MaybeEmpty<i32>` reads `Empty`, `Option<i32>` on a null cell reads `None`, a short tuple does not type-check. -/
@@ -357,9 +371,11 @@ example : serCarrier (.maybeEmpty .i32) (.native .counter) (.value (.i32 5)) tru
 
 /-! ### external carriers: the arithmetic of their conversions (`Model/C01ExternalConv.lean`)
 
-After conversion an external carrier *is* its core carrier (`chrono::NaiveDate`, `time::Date` ↦ `CqlDate`, …),
-for which `typed_roundtrip` holds; what remains is that the conversion pair is a bijection on the external
-type's range. -/
+For *serialization* an external carrier is converted (`From` / `TryFrom`) and then is its core carrier
+(`chrono::NaiveDate`, `time::Date` ↦ `CqlDate`, …); for *deserialization* four of them have their own code
+(`external_decode_roundtrip`), the two time-of-day types go through `TryInto` after the column's range check.
+What is proved is that each encode / decode pair is a bijection on the external type's range (the `time`
+crate built without `large-dates`), and where it is not (`chrono_leap_second`). -/
 
 open ScyllaVerif.ExternalConv in
 /-- `time::Date` ↔ `CqlDate`: every date of the crate's range goes to a `u32` and comes back. -/
@@ -439,14 +455,79 @@ theorem chrono_time_roundtrip (secs frac : Int) (s0 : 0 ≤ secs) (s1 : secs < 8
     intro h; omega
 
 open ScyllaVerif.ExternalConv in
-/-- `chrono::DateTime<Utc>` ↔ `CqlTimestamp` (millisecond precision) and `chrono::NaiveDate` ↔ `CqlDate`. -/
-theorem chrono_dt_date_roundtrip (secs millis days : Int) (m0 : 0 ≤ millis) (m1 : millis < 1000) :
-    cqlToChronoDt (chronoDtToCql secs millis) = (secs, millis) ∧ chronoDateToCql days - 2 ^ 31 = days := by
-  unfold cqlToChronoDt chronoDtToCql chronoDateToCql
-  refine ⟨?_, by omega⟩
+/-- `chrono::DateTime<Utc>` ↔ `CqlTimestamp` (millisecond precision, `TryInto` path). -/
+theorem chrono_dt_roundtrip (secs millis : Int) (m0 : 0 ≤ millis) (m1 : millis < 1000) :
+    cqlToChronoDt (chronoDtToCql secs millis) = (secs, millis) := by
+  unfold cqlToChronoDt chronoDtToCql
   have e1 : (secs * 1000 + millis) / 1000 = secs := by omega
   have e2 : (secs * 1000 + millis) % 1000 = millis := by omega
   rw [e1, e2]
+
+open ScyllaVerif.ExternalConv in
+/-- The external carriers' OWN decoders (`deserialize/value.rs:606-756`) invert the encoders on the external
+type's whole range: `chrono::NaiveDate` (every date of chrono's range becomes a `u32` day count and is decoded
+back), `chrono::DateTime<Utc>`, `time::Date`, `time::OffsetDateTime`, and the two time-of-day types (whose
+decoders apply the column's range check first). -/
+theorem external_decode_roundtrip :
+    (∀ d : Int, chronoDateMinDays ≤ d → d ≤ chronoDateMaxDays →
+      0 ≤ chronoDateToCql d ∧ chronoDateToCql d < 2 ^ 32 ∧ deChronoDate (chronoDateToCql d) = some d) ∧
+    (∀ secs millis : Int, 0 ≤ millis → millis < 1000 → chronoDtMinMs ≤ secs * 1000 + millis →
+      secs * 1000 + millis ≤ chronoDtMaxMs → deChronoDt (chronoDtToCql secs millis) = some (secs, millis)) ∧
+    (∀ jd : Int, timeDateMinJd ≤ jd → jd ≤ timeDateMaxJd → deTimeDate (timeDateToCql jd) = some jd) ∧
+    (∀ secs nanos : Int, (timeDateMinJd - unixEpochJulianDay) * 86400 ≤ secs →
+      secs < (timeDateMaxJd - unixEpochJulianDay + 1) * 86400 → 0 ≤ nanos → nanos < 1000000000 →
+      deTimeOdt (timeOdtToCql secs nanos) = some (secs, nanos / 1000000 * 1000000)) ∧
+    (∀ h m s n : Int, 0 ≤ h → h < 24 → 0 ≤ m → m < 60 → 0 ≤ s → s < 60 → 0 ≤ n → n < 1000000000 →
+      deTimeTime (timeTimeToCql h m s n) = some (h, m, s, n)) ∧
+    (∀ secs frac : Int, 0 ≤ secs → secs < 86400 → 0 ≤ frac → frac < 1000000000 →
+      deChronoTime (secs * 1000000000 + frac) = some (secs, frac)) := by
+  refine ⟨?_, ?_, ?_, ?_, ?_, ?_⟩
+  · intro d h0 h1
+    unfold chronoDateToCql deChronoDate chronoDateMinDays chronoDateMaxDays at *
+    refine ⟨by omega, by omega, ?_⟩
+    have : (2 : Int) ^ 31 + d - 2 ^ 31 = d := by omega
+    simp only [this]
+    simp [h0, h1]
+  · intro secs millis m0 m1 h0 h1
+    unfold deChronoDt chronoDtToCql
+    have e1 : (secs * 1000 + millis) / 1000 = secs := by omega
+    have e2 : (secs * 1000 + millis) % 1000 = millis := by omega
+    simp only [e1, e2]
+    simp [h0, h1]
+  · intro jd h0 h1
+    exact (time_date_roundtrip jd h0 h1).2.2
+  · intro secs nanos h0 h1 n0 n1
+    exact time_odt_roundtrip secs nanos h0 h1 n0 n1
+  · intro h m s n h0 h1 m0 m1 s0 s1 n0 n1
+    unfold deTimeTime
+    have := time_time_in_day h m s n h0 h1 m0 m1 s0 s1 n0 n1
+    simp only [this.1, this.2, and_self, if_true]
+    exact time_time_roundtrip h m s n h0 h1 m0 m1 s0 s1 n0 n1
+  · intro secs frac s0 s1 f0 f1
+    unfold deChronoTime
+    have hr : 0 ≤ secs * 1000000000 + frac ∧ secs * 1000000000 + frac ≤ 86399999999999 := by omega
+    simp only [hr.1, hr.2, and_self, if_true]
+    exact (chrono_time_roundtrip secs frac s0 s1 f0 f1).2.1
+
+open ScyllaVerif.ExternalConv in
+/-- **Leap seconds are not injective.**  chrono represents a leap second as a nanosecond fraction ≥ 10⁹ in the
+60th second of a minute; `TryFrom<NaiveTime> for CqlTime` adds it up, so (unless it is the last second of the
+day, which is `ValueOverflow`) the value written is the ordinary time one second later, and reads back as that. -/
+theorem chrono_leap_second (secs frac : Int) (s0 : 0 ≤ secs) (s1 : secs < 86399) (f0 : 1000000000 ≤ frac)
+    (f1 : frac < 2000000000) :
+    chronoTimeToCql secs frac = some ((secs + 1) * 1000000000 + (frac - 1000000000)) ∧
+    deChronoTime ((secs + 1) * 1000000000 + (frac - 1000000000)) = some (secs + 1, frac - 1000000000) := by
+  refine ⟨?_, ?_⟩
+  · unfold chronoTimeToCql
+    have h : secs * 1000000000 + frac ≤ 86399999999999 := by omega
+    have e : secs * 1000000000 + frac = (secs + 1) * 1000000000 + (frac - 1000000000) := by omega
+    rw [e] at h ⊢
+    rw [if_pos h]
+  · exact external_decode_roundtrip.2.2.2.2.2 (secs + 1) (frac - 1000000000) (by omega) (by omega) (by omega) (by omega)
+
+example : ExternalConv.chronoTimeToCql 59 1500000000 = some 60500000000 ∧
+    ExternalConv.deChronoDate 0 = none ∧ ExternalConv.deChronoDate (2 ^ 31) = some 0 ∧
+    ExternalConv.deChronoDt 8210266876800000 = none := by decide
 
 example : ExternalConv.timeTimeToCql 23 59 59 999999999 = 86399999999999 ∧
     ExternalConv.timeDateToCql 2440588 = 2 ^ 31 ∧ ExternalConv.timeOdtToCql (-1) 999000000 = -1 := by decide
